@@ -13,7 +13,8 @@ LEVEL_TEXT = ("Proof + correspondence: Coq model of feaLib's registration rule a
               "names the script (known finding F6); for kerning BETWEEN scripts, the lookup of a bucket is registered under every "
               "script of that bucket (mergeScripts, Kern/Merge.v, C20_cross_script_bucket_registered_under_all_its_scripts) and "
               "compiled fonts with chains of cross-script pairs are read back script by script. The property (spec_C20) and the model's script list are evaluated with "
-              "vm_compute on the ScriptList/LangSys/Feature structure read from compiled fonts.")
+              "vm_compute on the ScriptList/LangSys/Feature structure read from compiled fonts."
+              " featureWriters/ast.addLookupReferences is TRANSLATED from /repo's source on every run (harness/fea_from_source.py -> Generated/FeaGen.v) and proved equal to the model (Fea/LookupRefsTied.v): 'every listed language reaches the lookups' is restated about the translated code.")
 LEVEL_NOTE = ("Trusted: Coq kernel, hand model, harness, GPOS reader, feaLib. Which script tags the kern block names is taken from "
               "the compiled font (the kern writer's script detection is C05's subject).")
 TECHNIQUE = "Coq model + theorems (incl. refutation witness) of feature registration; vm_compute check of compiled ScriptLists"
